@@ -1,1 +1,81 @@
--- property theorems for C01 (stub)
+import RP.Lemmas.C01.Classes
+/-! # C01 — hand strength ordering is exactly the poker hand ranking (both deck configurations)
+
+Model: `RP.Eval` (`strength cfg bits`, comparison key `strengthKey`, `compareHands`), written as
+`evalA cfg (α h)` where `α h` = (per-rank count vector, rank mask, rank mask of the flush suit).
+Specification: `RP.Spec.Poker` (`value5`, `best5`; on classes `specA`).
+The category order and kicker counts the model uses are the generated `RP.Gen.rankingOrder*`,
+`RP.Gen.nKickers`; the rules' order is written by hand in the specification. -/
+namespace RP.C01
+open RP.Bits RP.Eval RP.Spec.Poker
+
+/-- **C01_table** (uses `native_decide` in `RP.Lemmas.C01.Tab*`): on every class — count vector of
+    13 ranks with digits ≤ 4 and 5..7 cards, flush rank set of 5..7 ranks — the evaluator model
+    returns a well-formed `(Ranking, Kickers)` whose translation into the rules' value space is the
+    rules' best-five value of the class; a non-straight flush keeps only its top card
+    (`coarse`, the known finding KF-C01-flush).  73 775 count vectors + 4 719 flush sets per deck,
+    walked by `forallCV` / `forallF` which are proved to visit every valid class. -/
+theorem C01_table (cfg : Cfg) (c : Cls) (hv : ValidCls c) :
+    (evalA? cfg c).isSome = true ∧ wfRes (evalA cfg c) = true ∧
+      specOf cfg (evalA cfg c) = coarse cfg (specA cfg c) :=
+  table_cls cfg c hv
+
+/-- the walkers are complete: every valid count vector / flush set is a row of the table -/
+theorem C01_table_complete (cfg : Cfg) :
+    (∀ cv, validCV 13 cv → 5 ≤ digitSum 13 cv → digitSum 13 cv ≤ 7 → rowN cfg cv = true) ∧
+    (∀ F, F < 2^13 → 5 ≤ popW 13 F → popW 13 F ≤ 7 → rowF cfg F = true) :=
+  ⟨rowN_of_valid cfg, rowF_of_valid cfg⟩
+
+-- non-vacuity: A A K K Q Q J (three pairs) is a valid class; two pair aces and kings, queen kicker
+example : ValidCls (clsN (2 * 8^12 + 2 * 8^11 + 2 * 8^10 + 8^9)) := ⟨by decide, by decide, by decide, rfl, by decide⟩
+example : evalA .std (clsN (2 * 8^12 + 2 * 8^11 + 2 * 8^10 + 8^9)) = (⟨cTwoPair, 12, 11⟩, 2^10) := by decide
+
+/-- **C01_key_order**: the derived `Ord` of `Strength` (variant index from the generated enum order,
+    fields, kicker mask as a number) orders well-formed results exactly as the rules order their
+    translations: needs the generated variant order to be the category order of the deck's rules -/
+theorem C01_key_order (cfg : Cfg) (a b : Rk × Nat) (ha : wfRes a = true) (hb : wfRes b = true) :
+    compare (keyA cfg a) (keyA cfg b) = compare (specOf cfg a) (specOf cfg b) :=
+  key_order cfg a b ha hb
+
+/-- the generated enum order of each build is the order of its rules (flush and full house
+    exchanged in the short deck) -/
+theorem C01_variant_order (cfg : Cfg) : ∀ c1, c1 < 9 → ∀ c2, c2 < 9 →
+    (variantIdx cfg c1 < variantIdx cfg c2 → posOfCat cfg c1 < posOfCat cfg c2) ∧
+    (variantIdx cfg c1 = variantIdx cfg c2 → c1 = c2) :=
+  idx_facts cfg
+
+example : variantIdx .std cFullHouse > variantIdx .std cFlush ∧ variantIdx .short cFlush > variantIdx .short cFullHouse := by decide
+
+/-- **C01_order_classes**: on valid classes the engine's comparison is the rules' comparison,
+    unless the two values are non-straight flushes with equal top card and different lower cards -/
+theorem C01_order_classes (cfg : Cfg) (c1 c2 : Cls) (h1 : ValidCls c1) (h2 : ValidCls c2)
+    (hn : ¬ FlushTie cfg (specA cfg c1) (specA cfg c2)) :
+    compare (keyA cfg (evalA cfg c1)) (keyA cfg (evalA cfg c2)) = compare (specA cfg c1) (specA cfg c2) :=
+  order_cls cfg c1 c2 h1 h2 hn
+
+/-- … and on such pairs the engine answers `Equal` -/
+theorem C01_flush_behaviour_classes (cfg : Cfg) (c1 c2 : Cls) (h1 : ValidCls c1) (h2 : ValidCls c2)
+    (ht : FlushTie cfg (specA cfg c1) (specA cfg c2)) :
+    compare (keyA cfg (evalA cfg c1)) (keyA cfg (evalA cfg c2)) = .eq :=
+  tie_cls cfg c1 c2 h1 h2 ht
+
+/-- As Ks Qs Js 9s and Ah Kh Qh Jh 8h -/
+def witnessA : Nat := 2^51 + 2^47 + 2^43 + 2^39 + 2^31
+def witnessB : Nat := 2^50 + 2^46 + 2^42 + 2^38 + 2^26
+
+/-- **known finding KF-C01-flush, witness**: the engine calls these two flushes equal, the rules
+    do not — so the unrestricted statement of C01 is false for the code as it is -/
+theorem C01_flush_witness (cfg : Cfg) :
+    compareHands cfg witnessA witnessB = .eq ∧
+    compare (best5 (Cfg.isShort cfg) witnessA) (best5 (Cfg.isShort cfg) witnessB) = .gt := by
+  cases cfg <;> decide
+
+theorem C01_full_statement_fails (cfg : Cfg) :
+    ¬ ∀ h1 h2, compareHands cfg h1 h2 = compare (best5 (Cfg.isShort cfg) h1) (best5 (Cfg.isShort cfg) h2) := by
+  intro h
+  have := C01_flush_witness cfg
+  rw [h witnessA witnessB] at this
+  have e : Ordering.eq = Ordering.gt := this.1.symm.trans this.2
+  cases e
+
+end RP.C01
